@@ -58,7 +58,7 @@ def live_window_alias(ir):
     return False
 
 
-def generic(op, old_ir, new_ir, step, sess):
+def generic(op, old_ir, new_ir, call):
     d = {}
     if live_window_alias(old_ir):
         d["live_window_alias"] = True
